@@ -395,7 +395,8 @@ impl Program {
                     name: loop_count_reference.name.clone(),
                     size: Vector {
                         data_type: ScalarType::Integer,
-                        length: 1,
+                        // long enough to hold the referenced cell
+                        length: loop_count_reference.index.saturating_add(1),
                     },
                     sharing: None,
                 }),
@@ -412,10 +413,8 @@ impl Program {
             .chain(vec![
                 Instruction::Arithmetic(Arithmetic {
                     operator: ArithmeticOperator::Subtract,
-                    destination: MemoryReference {
-                        name: loop_count_reference.name.clone(),
-                        index: 0,
-                    },
+                    // decrement the same cell that is initialized above and tested below
+                    destination: loop_count_reference.clone(),
                     source: ArithmeticOperand::LiteralInteger(1),
                 }),
                 Instruction::JumpWhen(JumpWhen {
